@@ -1,8 +1,8 @@
 """Tie A for WeakRingBuffer<void>: translate the trace of harness/clients/ringbuf.cpp (variants void_*, run with
 `--trace 1`) into the vocabulary of the Lean machine CdsVerif/Algo/VoidRing/Model.lean (`cdsdriver replay voidring`).
 
-The atomic events (`ld`/`st` on `front` / `back`, values in bytes) and the consumer's lines are passed through
-unchanged.  Only the producer's operation lines are rewritten, per CASE block:
+The atomic events (`ld`/`st` on `front` / `back`, values in bytes), the consumer's lines and the `size` / `empty`
+operations of both threads (client option --sizeops) are passed through unchanged.  Only the producer's operation lines are rewritten, per CASE block:
 
   `T 0 CALL push <sel> <raw>`   the client draws the record size from (sel, raw) and its private mirror of back_ when the
                                 operation starts and numbers the payloads 1, 2, ...; it reports both in the result
@@ -62,6 +62,9 @@ def pre(text):
                     line = "T 0 RET %s" % ok
         out.append(line)
     return "\n".join(out)
+
+
+voidring_pre = pre          # `from voidring_pre import voidring_pre`, as for the other pre-passes
 
 
 if __name__ == "__main__":
